@@ -354,6 +354,37 @@ def reFlex (N : Nat) (xs : List α) : Option α :=
       sumL ((List.range (m + 1)).map fun i => (ft + nat i * slope) - (fs[t - i]?.getD (nat 0))) / nat N
     flexNorm true ds
 
+/-- the flex smoother under the crate's convention "window of N filter values including the current one": with N = 2 the
+lag-2 term, with N = 1 both feedback terms lie outside the window and are dropped (c1 keeps its formula) -/
+def flexCoefW (N : Nat) : Coef α :=
+  let c := flexCoef (α := α) N
+  { c1 := c.c1, b1 := if 2 ≤ N then c.b1 else nat 0, c3 := if 3 ≤ N then c.c3 else nat 0 }
+
+/-- TrendFlex for every window length (equal to `trendFlex` for N ≥ 3) -/
+def trendFlexW (N : Nat) (xs : List α) : Option α :=
+  match xs with
+  | [] => none
+  | x0 :: _ =>
+    let fs := (smoothSeq (flexCoefW N) x0 xs).reverse
+    let ds := (List.range fs.length).map fun t =>
+      let m := min t (N - 1)
+      let ft := fs[t]?.getD (nat 0)
+      sumL ((List.range (m + 1)).map fun i => ft - (fs[t - i]?.getD (nat 0))) / nat N
+    flexNorm false ds
+
+/-- ReFlex for every window length (equal to `reFlex` for N ≥ 3) -/
+def reFlexW (N : Nat) (xs : List α) : Option α :=
+  match xs with
+  | [] => none
+  | x0 :: _ =>
+    let fs := (smoothSeq (flexCoefW N) x0 xs).reverse
+    let ds := (List.range fs.length).map fun t =>
+      let m := min t (N - 1)
+      let ft := fs[t]?.getD (nat 0)
+      let slope := ((fs[t - m]?.getD (nat 0)) - ft) / nat N
+      sumL ((List.range (m + 1)).map fun i => (ft + nat i * slope) - (fs[t - i]?.getD (nat 0))) / nat N
+    flexNorm true ds
+
 /-- the sequence fed to PFE's moving average (oldest first): from `t ≥ N-1`, the signed ratio -/
 def pfeRatios (N : Nat) (xs : List α) : List α :=
   (List.range xs.length).filterMap fun t =>
